@@ -48,7 +48,11 @@ Overrides == { Override(ks, k2) : ks \in { l \in Layouts : l[1] \in {"req", "val
 \* after the re-declaration field 1 is positional with a default: every later positional field needs one too
 WellFormedCls(c) == \A j \in 2..Len(DcFields(c)) :
                        (GetOpt(FOpts(DcFields(c)[j]), "kw_only", FALSE) \/ ~FInit(DcFields(c)[j])) \/ FDflt(DcFields(c)[j])[1] # "req"
-Classes == { Flat(ks) : ks \in Layouts }
+\* members that are NOT dataclass fields: cv: ClassVar[int] = 4 and iv: InitVar[int] = 5 (declared after the fields).  The
+\* reference FromDict does not know them -- keys "cv" / "iv" in the input are unknown keys and are ignored; the real class
+\* refuses (in __post_init__) any iv other than its default and any change of cv
+FlatX(ks) == <<"dc", "K", Fields(ks), << <<"extras", <<"cv", "iv">> >> >> >>
+Classes == { Flat(ks) : ks \in Layouts } \cup { FlatX(ks) : ks \in { l \in Layouts : Len(l) <= 2 } }
            \cup UNION { { Split(ks, s) : s \in 1..Len(ks) } : ks \in { l \in Layouts : Len(l) >= 2 } }
            \cup { c \in Overrides : WellFormedCls(c) }
 Good(f) == IF FType(f) = IntL THEN L(<<I(8), I(9)>>) ELSE I(40)
@@ -58,12 +62,15 @@ Inputs(C) == { Dct(LET fs == DcFields(C)
                        idx == SelectSeq([i \in DOMAIN fs |-> i], LAMBDA i : ch[i] # 0) IN
                    [n \in DOMAIN idx |-> <<S(FName(fs[idx[n]])), IF ch[idx[n]] = 1 THEN Good(fs[idx[n]]) ELSE None>>])
                : ch \in [DOMAIN DcFields(C) -> 0..2] }
+\* classes with non-field members also meet every input with the keys "cv" and "iv" present
+WithExtras(j) == Dct(j[2] \o << <<S("cv"), I(77)>>, <<S("iv"), I(78)>> >>)
+AllInputs(C) == IF HasOpt(DcCfg(C), "extras") THEN Inputs(C) \cup { WithExtras(j) : j \in Inputs(C) } ELSE Inputs(C)
 
 ValidSplit(C) == \A o \in Range(DcCfg(C)) : o[1] = "bases" => Len(o[2][1][3]) < Len(DcFields(C)) \/ HasOpt(DcCfg(C), "redeclared")
 
 Init == T = <<"start">> /\ v = <<"nov">> /\ kind = "start"
 Next == \/ kind = "start" /\ T' \in { C \in Classes : ValidSplit(C) } /\ v' = v /\ kind' = "type"
-        \/ kind = "type" /\ T' = T /\ v' \in Inputs(T) /\ kind' = "input"
+        \/ kind = "type" /\ T' = T /\ v' \in AllInputs(T) /\ kind' = "input"
 
 Dec == Unpack(T, DefaultCx, v)
 
